@@ -56,6 +56,8 @@ def run(ck):
     meths = m.methods("DiGraph")
     ck.rule("R1", "adjacency state is written only by the four mutators, each edge mutation updating all three structures, mirrored", floor=6)
     ck.rule("R2", "backward/post variants are the mirror image of their forward twins; forward twins have the demanded orientation", floor=8)
+    ck.rule("R4", "skeleton of cycle detection and of the dominator fix point: on-path set maintained around the back-edge test; head fixed, "
+                  "intersection over in-region predecessors plus the node, successors re-queued on change", floor=8)
     ck.rule("R3", "successor/predecessor accessors and heads/leaves read the right map", floor=4)
 
     # ---------------------------------------------------------------- R1
@@ -168,3 +170,65 @@ def run(ck):
         ok = (("self.%s(" % acc) in txt or ("self.%s_iter(" % acc) in txt or ("self.%s[" % attr) in txt) and \
             ("self.%s(" % other) not in txt and ("self.%s[" % oattr) not in txt and "not " in txt
         ck.ob("R3", nm, ok, m.where(fn), "%s must select nodes without %s" % (nm, acc))
+
+    # ---------------------------------------------------------------- R4 algorithm skeletons
+    from sa.cfg import CFG, node_calls
+    fn = meths["has_loop"]
+    cfg = CFG(fn)
+    # the on-path set: the one tested in `succ in <set>` under a loop over the successors of the current node, returning True
+    onpath = None
+    back_tests = []
+    for nd in cfg.nodes:
+        if nd.kind == "test" and isinstance(nd.ast, ast.Compare) and isinstance(nd.ast.ops[0], ast.In) and isinstance(nd.ast.comparators[0], ast.Name):
+            lp = getattr(nd.ast, "_parent", None)
+            while lp is not None and not isinstance(lp, ast.For):
+                lp = getattr(lp, "_parent", None)
+            if lp is not None and "successors" in norm(lp.iter) and norm(nd.ast.left) == norm(lp.target):
+                onpath = nd.ast.comparators[0].id
+                back_tests.append(nd)
+    ck.ob("R4", "has_loop:back-edge-test", onpath is not None, m.where(fn), "no test `successor in <on-path set>` found")
+    if onpath is not None:
+        rm = [nd for nd in cfg.nodes if any(isinstance(c.func, ast.Attribute) and c.func.attr in ("remove", "discard") and dotted(c.func.value) == onpath
+                                            for c in node_calls(nd))]
+        heads = [nd.id for nd in cfg.nodes if nd.kind in ("loop", "test") and isinstance(nd.ast, ast.While)] or \
+            [nd.id for nd in cfg.nodes if nd.kind == "test" and getattr(nd.ast, "_parent", None) is not None and isinstance(getattr(nd.ast, "_parent"), ast.While)
+             and getattr(nd.ast, "_parent").test is nd.ast]
+        # within one iteration of the work loop, the node leaves the on-path set only after its successors were tested against it
+        late = any(cfg.can_reach(r.id, t.id, avoid=lambda x: x.id in heads) for r in rm for t in back_tests)
+        ck.ob("R4", "has_loop:scan-before-leaving-path", bool(rm) and bool(heads) and not late, m.where(fn),
+              "a node is removed from the on-path set `%s` before its successors are tested against it: an edge from the node to itself "
+              "is no longer seen as a cycle" % onpath)
+        add = [nd for nd in cfg.nodes if any(isinstance(c.func, ast.Attribute) and c.func.attr == "add" and dotted(c.func.value) == onpath for c in node_calls(nd))]
+        push = [nd for nd in cfg.nodes if any(isinstance(c.func, ast.Attribute) and c.func.attr == "append" and dotted(c.func.value) == "todo" for c in node_calls(nd))]
+        ck.ob("R4", "has_loop:enter-path", bool(add) and bool(push), m.where(fn),
+              "starting the visit of a node must put it on the on-path set and schedule its own end-of-branch visit")
+        rets = [norm(n.value) for n in walk_body(fn) if isinstance(n, ast.Return)]
+        ck.ob("R4", "has_loop:verdicts", sorted(rets) == ["False", "True"], m.where(fn), "has_loop must answer True at a back edge and False when the walk ends")
+
+    fn = meths["_compute_generic_dominators"]
+    hp, pp, np_ = fn.args.args[0].arg, fn.args.args[2].arg, fn.args.args[3].arg
+    body = ast.Module(body=fn.body, type_ignores=[])
+    wl = [n for n in walk_body(fn) if isinstance(n, ast.While)]
+    ck.need(wl, "_compute_generic_dominators: work loop not found")
+    wl = wl[0]
+    ok = any(isinstance(n, ast.Assign) and norm(n.targets[0]) == "dominators[%s]" % hp and norm(n.value) in ("set([%s])" % hp, "{%s}" % hp) for n in fn.body)
+    ck.ob("R4", "dominators:head-init", ok, m.where(fn), "the head must start (and stay) dominated by itself only")
+    ok = any(isinstance(n, ast.If) and norm(n.test) in ("node == %s" % hp, "%s == node" % hp, "node is %s" % hp) and any(isinstance(x, ast.Continue) for x in n.body)
+             for n in wl.body)
+    ck.ob("R4", "dominators:head-fixed", ok, m.where(wl), "the head's dominator set is recomputed in the fix point (a head with predecessors loses itself as only dominator)")
+    full = any(isinstance(n, ast.For) and any(isinstance(a, ast.Assign) and norm(a.targets[0]).startswith("dominators[") and norm(a.value) in ("set(nodes)", "nodes.copy()", "set(nodes.copy())")
+                                              for a in n.body) for n in fn.body)
+    ck.ob("R4", "dominators:top-init", full, m.where(fn), "every node must start with the full node set (greatest fix point)")
+    inner = [n for n in wl.body if isinstance(n, ast.For) and norm(n.iter) == "%s(node)" % pp]
+    ok = bool(inner) and any(isinstance(c, ast.Call) and isinstance(c.func, ast.Attribute) and c.func.attr == "intersection_update" for c in walk_local(inner[0])) and \
+        any(isinstance(t, ast.If) and "nodes" in norm(t.test) and any(isinstance(x, ast.Continue) for x in t.body) for t in inner[0].body)
+    ck.ob("R4", "dominators:meet-over-region-predecessors", ok, m.where(wl),
+          "the new set must be the intersection over the predecessors that belong to the reachable region")
+    ok = any(isinstance(c, ast.Call) and isinstance(c.func, ast.Attribute) and c.func.attr in ("update", "add") and dotted(c.func.value) == "new_dom" and "node" in norm(c)
+             for c in walk_local(wl))
+    ck.ob("R4", "dominators:reflexive", ok, m.where(wl), "a node must dominate itself")
+    req = [n for n in wl.body if isinstance(n, ast.For) and norm(n.iter) == "%s(node)" % np_]
+    ok = bool(req) and any(isinstance(c, ast.Call) and dotted(c.func) == "todo.add" for c in walk_local(req[0])) and \
+        any(isinstance(n, ast.Assign) and norm(n.targets[0]) == "dominators[node]" and norm(n.value) == "new_dom" for n in wl.body)
+    ck.ob("R4", "dominators:requeue-on-change", ok, m.where(wl), "a changed set must be stored and the node's successors re-queued")
+
